@@ -141,9 +141,24 @@ def project_params(sig):
     return ps
 
 
+def upgraded_annotation_ids(sig):
+    """what upgraded_annotation.source_value() yields per parameter (for eagerly annotated functions: the annotation object itself)"""
+    out = []
+    for p in sig.parameters.values():
+        ua = getattr(p, 'upgraded_annotation', None)
+        if ua is None:
+            out.append(-1)
+            continue
+        try:
+            out.append(an_id(ua.source_value()))
+        except Exception:  # noqa
+            out.append(98)
+    return out
+
+
 def project(sig, fns):
     """real UpgradedSignature -> abstract signature with provenance"""
-    res = {'ps': project_params(sig)}
+    res = {'ps': project_params(sig), 'uan': upgraded_annotation_ids(sig)}
     sources = getattr(sig, 'sources', None)
     src = {}
     depth = {}
